@@ -51,7 +51,7 @@ func TestZsimC14(t *testing.T) {
 		Run:      c14Run,
 		Horizon:  6 * time.Hour,
 		MaxSteps: 3000000,
-		Rule:     "n ready connections with drawn latency/failure profiles; 1-4 caller tasks loop Pick -> sleep(latency) -> Done(err) with drawn spacing (0..30s); or a scripted health scenario; non-trivial = at least two connections and (an unacceptable completion or overlapping callers); distinct = distinct event-log fingerprint",
+		Rule:     "n ready connections with drawn latency/failure profiles; 1-4 caller tasks loop Pick -> sleep(latency) -> Done(err) with drawn spacing (0..30s); or a scripted health scenario; or a starvation scenario (20 s at 50 picks/s, 200 picks/s with five or more connections); non-trivial = at least two connections and (an unacceptable completion or overlapping callers); distinct = distinct event-log fingerprint",
 		Real:     []string{"rpc/internal/balancer/p2c (Build, Pick, choose, done func, subConn)", "rpc/internal/codes.Acceptable", "lib/timex", "lib/syncx.AtomicDuration"},
 		Stub:     []string{"balancer.SubConn values", "caller tasks", "backend latency and error profiles"},
 	})
